@@ -399,7 +399,7 @@ class ToS2Grid(torch.nn.Module):
         return x.reshape(*size, *x.shape[1:])
 
     def _make_tracing_inputs(self, n: int):
-        return [{"forward": (torch.randn(self.lmax**2),)} for _ in range(n)]
+        return [{"forward": (torch.randn((self.lmax + 1) ** 2),)} for _ in range(n)]
 
 
 @compile_mode("trace")
